@@ -532,8 +532,9 @@ func (m *Model) emitTS(u MUnit, ra, paramsChanged bool, rate int64, size uint64)
 				case cmp == -1:
 					m.Decisions["min-not-reached"]++
 				default:
+					// undecided boundary: the scenario leaves the decided domain (E1 skips it); the unit
+					// itself is still part of the stream
 					res.Ambiguous = true
-					return res
 				}
 			} else {
 				m.Decisions["not-random-access"]++
